@@ -110,6 +110,27 @@ func runOpaque(c *core.Ctx) {
 				}
 			}
 			c.Check(ok, construct, al.Pos(), "stored from the received message", "the opaque value's "+strings.Join(x.field, ".")+" is not taken from the received "+x.want+" (got "+setStr(got)+"): an unknowing process would forward something else than it received")
+			// verbatim: for the scalar/string/struct slots nothing but the received field may contribute - no
+			// constant substituted on some path, no other field mixed in ("keep what was received")
+			if ok && x.field[len(x.field)-1] != "cause" && x.field[len(x.field)-1] != "causes" {
+				var foreign []string
+				for _, o := range e.TraceRecv(al, x.field).List() {
+					k := ""
+					if o.Kind == origin.Recv && len(o.Sub) > 0 {
+						k = shortType(o.Desc) + "." + strings.Join(o.Sub, ".")
+					}
+					if k == x.want || strings.HasPrefix(k, x.want+".") {
+						continue
+					}
+					if o.Kind == origin.Const && strings.HasPrefix(o.Desc, "zero") {
+						continue
+					}
+					foreign = append(foreign, o.Key())
+				}
+				sort.Strings(foreign)
+				c.Check(len(foreign) == 0, construct+" (verbatim)", al.Pos(), "nothing but the received field contributes",
+					"the opaque value's "+strings.Join(x.field, ".")+" is not always the received "+x.want+" itself (also: "+strings.Join(dedupStr(foreign), ", ")+"): an unknowing process alters what it forwards and shows")
+			}
 		}
 	}
 	// (b) re-emission
